@@ -155,7 +155,11 @@ ENAMETOOLONG == -36
 ENOENT == -2
 EMFILE == -24
 
-Init == phase = "pick" /\ o \in Points /\ k \in {[std |-> s, hasInput |-> FALSE] : s \in StdSets}
+\* what is launched does not depend on which of the caller's standard descriptors are open: the points with a working directory
+\* for the child are also taken by a caller without stdin, and without stdin and stdout
+StdFor(pt) == IF Family = "env" /\ "x" \in DOMAIN pt /\ pt.x.wd = "/d" /\ pt.x.cwdlen = 0 /\ pt.x.mask = <<>> /\ pt.x.disp = <<>> /\ pt.x.cwd = "/w"
+                THEN StdSets \cup {<<FALSE, TRUE, TRUE>>, <<FALSE, FALSE, TRUE>>} ELSE StdSets
+Init == phase = "pick" /\ o \in Points /\ k \in {[std |-> s, hasInput |-> FALSE] : s \in StdFor(o)}
 \* a user handle / FILE that names one of the parent's descriptors 1, 2 while that descriptor is closed: an unusable target
 DeadTarget(eff) == \E s \in 1..3 : (eff[s].t = T_HANDLE /\ eff[s].h \in {1, 2} /\ ~k.std[eff[s].h + 1])
                                      \/ (eff[s].t = T_FILE /\ FdOf(eff[s].f) \in {0, 1, 2} /\ ~k.std[FdOf(eff[s].f) + 1])
